@@ -75,6 +75,14 @@ CHECKS["C10"] = dict(
     design_ref="5/C10",
 )
 
+CHECKS["C07"] = dict(
+    category="proof",
+    text="Scenario.assign_obstacles_to_lanelets (incl. its two nested functions), the lanelet registries, _add/_remove_*_obstacle_(to|from)_lanelets, add_objects / remove_obstacle are executed symbolically from the real source on a 2-lanelet network with a static obstacle (rectangle, circle) and a dynamic obstacle with trajectory prediction at symbolic poses; find_lanelet_by_position / find_lanelet_by_shape run through the STRtree model, so every combination of 'centre in lanelet' / 'occupancy intersects lanelet' is a path. Postconditions: recorded centre set == lanelets containing the centre, recorded shape set == lanelets the occupancy intersects, each lanelet registry is exactly the inverse of the shape assignment (per time step for dynamic obstacles), remove_obstacle never fails and clears the registries; obstacles added with given assignments are registered on exactly those lanelets.",
+    note="geometric predicates are the abstract shapely predicates (their truth is C06); assumed geometry fact: a lanelet containing the centre of a shape is intersected by it; reader-side assignment (XML / protobuf with lanelet_assignment=True) is not covered; 2 lanelets, 1-2 time steps",
+    technique="deductive: AST symbolic execution of real source with abstract geometric predicates (all predicate valuations explored), VCs discharged by z3",
+    design_ref="5/C07",
+)
+
 NOT_YET = {}
 
 def main():
